@@ -172,6 +172,40 @@ func main() {
 		lats = append(lats, lat)
 	}
 	lats = append(lats, 85.05, 0, -0.0001, 84.9999)
+	// layers (plural): every sequence of 1..4 layers over 3 extents, through Layers.ProjectToWGS84 and
+	// Layers.ProjectToTile; each layer must be projected with ITS OWN extent and agree with the single-layer methods
+	exts := []uint32{256, 4096, 1000}
+	r.Explore("layers-mixed-extents", "every sequence of 1..4 layers over extents {256, 4096, 1000} x 3 tiles: Layers.ProjectToWGS84 / ProjectToTile round-trip integer pixels and agree with the per-layer methods", mc.Opts{MaxDev: -1, Split: 2}, func(c *mc.Ctx) {
+		tile := []maptile.Tile{maptile.New(0, 0, 0), maptile.New(5, 11, 4), maptile.New(1730576, 798477, 21)}[c.Choose(3)]
+		n := 1 + c.Choose(4)
+		px := func(e uint32) orb.MultiPoint {
+			return orb.MultiPoint{{0, 0}, {float64(e) / 2, float64(e)/2 + 1}, {float64(e) - 1, 3}, {-7, float64(e) + 7}, {1, float64(e) - 2}}
+		}
+		var ls, single mvt.Layers
+		var seq []uint32
+		for i := 0; i < n; i++ {
+			e := exts[c.Choose(len(exts))]
+			seq = append(seq, e)
+			ls = append(ls, &mvt.Layer{Name: fmt.Sprint("l", i), Version: 2, Extent: e, Features: []*geojson.Feature{geojson.NewFeature(px(e))}})
+			single = append(single, &mvt.Layer{Name: fmt.Sprint("l", i), Version: 2, Extent: e, Features: []*geojson.Feature{geojson.NewFeature(px(e))}})
+		}
+		ls.ProjectToWGS84(tile)
+		for i, l := range single {
+			l.ProjectToWGS84(tile)
+			if !orb.Equal(l.Features[0].Geometry, ls[i].Features[0].Geometry) {
+				c.Failf("layers-plural", "tile %v extents %v: Layers.ProjectToWGS84 gives %v for layer %d, Layer.ProjectToWGS84 gives %v", tile, seq, ls[i].Features[0].Geometry, i, l.Features[0].Geometry)
+				return
+			}
+		}
+		ls.ProjectToTile(tile)
+		for i, l := range ls {
+			if want := px(seq[i]); !orb.Equal(l.Features[0].Geometry, want) {
+				c.Failf("layers-plural", "tile %v extents %v: layer %d comes back as %v after Layers.ProjectToWGS84 / ProjectToTile, want %v", tile, seq, i, l.Features[0].Geometry, want)
+				return
+			}
+		}
+		c.NonTrivial()
+	})
 	r.Explore("mercator", fmt.Sprintf("%d x %d lon/lat lattice incl. the range ends: WGS84->Mercator->WGS84 within 1e-9 deg and Mercator->WGS84->Mercator within 1e-3 m", len(lons), len(lats)), mc.Opts{MaxDev: -1, Split: 1}, func(c *mc.Ctx) {
 		lon := lons[c.Choose(len(lons))]
 		for _, lat := range lats {
